@@ -511,7 +511,7 @@ func tgRandomRun(rng *rand.Rand, kind string, res *hx.Result, runNo int) ([]Even
 		tg := threadgroup.New()
 		for i := 1; i <= nthreads; i++ {
 			d1, d2 := rng.Intn(6), rng.Intn(6)
-			useCtx := rng.Intn(2) == 0
+			useCtx, untilStop := rng.Intn(2) == 0, rng.Intn(2) == 0
 			wg.Add(1)
 			go func(i int) {
 				defer wg.Done()
@@ -532,7 +532,7 @@ func tgRandomRun(rng *rand.Rand, kind string, res *hx.Result, runNo int) ([]Even
 					}
 					return
 				}
-				if useCtx && rng.Intn(2) == 0 {
+				if useCtx && untilStop {
 					// a member that works until it is told to stop
 					select {
 					case <-ctx.Done():
